@@ -226,19 +226,21 @@ def _binding_sites(fn: ast.AST, name: str) -> list[tuple[ast.AST, ast.AST]]:
     return out
 
 
-def _protected_source(own: Owner, fn: ast.AST, e: ast.AST, cfg: CFG, use_stmt: ast.AST, depth: int = 0) -> str | None:
-    """Why the value of ``e`` at ``use_stmt`` may be the shared connection (None = it cannot, as far as the rule sees)."""
+def _protected_source(own: Owner, fn: ast.AST, e: ast.AST, cfg: CFG, use_stmt: ast.AST, depth: int = 0, taint: dict[str, str] | None = None) -> str | None:
+    """Why the value of ``e`` at ``use_stmt`` may be the shared connection (None = it cannot, as far as the rule sees).
+    ``taint``: parameters of ``fn`` that a caller in the same class fills with a possibly-shared connection."""
+    taint = taint or {}
     if depth > 3:
         return None
     if isinstance(e, ast.Await):
-        return _protected_source(own, fn, e.value, cfg, use_stmt, depth)
+        return _protected_source(own, fn, e.value, cfg, use_stmt, depth, taint)
     if _self_attr(e) in own.protected:
         return f"self.{e.attr}"
     if isinstance(e, ast.IfExp):
-        return _protected_source(own, fn, e.body, cfg, use_stmt, depth) or _protected_source(own, fn, e.orelse, cfg, use_stmt, depth)
+        return _protected_source(own, fn, e.body, cfg, use_stmt, depth, taint) or _protected_source(own, fn, e.orelse, cfg, use_stmt, depth, taint)
     if isinstance(e, ast.BoolOp):
         for v in e.values:
-            r = _protected_source(own, fn, v, cfg, use_stmt, depth)
+            r = _protected_source(own, fn, v, cfg, use_stmt, depth, taint)
             if r:
                 return r
         return None
@@ -247,7 +249,7 @@ def _protected_source(own: Owner, fn: ast.AST, e: ast.AST, cfg: CFG, use_stmt: a
         if sc in own.providers:
             return f"self.{sc}() may return self.{'/'.join(sorted(own.protected))}"
         if last(call_name(e)) == "closing" and e.args:
-            return _protected_source(own, fn, e.args[0], cfg, use_stmt, depth)
+            return _protected_source(own, fn, e.args[0], cfg, use_stmt, depth, taint)
         return None
     if isinstance(e, ast.Name):
         use_nodes = cfg.nodes_of(use_stmt)
@@ -259,9 +261,13 @@ def _protected_source(own: Owner, fn: ast.AST, e: ast.AST, cfg: CFG, use_stmt: a
             reach = cfg.reach(dn, blocked=others, include_starts=False)
             if not any(u in reach for u in use_nodes) and not (st is use_stmt):
                 continue
-            r = _protected_source(own, fn, v, cfg, st, depth + 1)
+            r = _protected_source(own, fn, v, cfg, st, depth + 1, taint)
             if r:
                 return f"{e.id} <- {r} ({own.m.rel}:{st.lineno})"
+        if e.id in taint:
+            # the parameter's own value reaches the use when no re-binding lies on every path from entry
+            if any(u in cfg.reach([cfg.entry], blocked=all_def_nodes) for u in use_nodes):
+                return f"parameter {e.id} <- {taint[e.id]}"
         return None
     return None
 
@@ -281,11 +287,34 @@ def _ownership_guard(own: Owner, facts: set, recv: ast.AST) -> bool:
     return False
 
 
+def _helper_taint(own: Owner) -> dict[str, dict[str, str]]:
+    """method -> {parameter: why} for methods of the class that receive a possibly-shared connection from a
+    sibling method (one call deep): ``self._release(conn)``."""
+    out: dict[str, dict[str, str]] = {}
+    for name, fn in own.methods.items():
+        cfg = None
+        for c in calls(fn):
+            h = _self_call(c)
+            if h is None or h not in own.methods or h in own.providers or h == name:
+                continue
+            hf = own.methods[h]
+            params = [a.arg for a in hf.args.posonlyargs + hf.args.args][1:]
+            bound = list(zip(params, c.args)) + [(k.arg, k.value) for k in c.keywords if k.arg in params]
+            for pname, arg in bound:
+                cfg = cfg or CFG(fn)
+                src = _protected_source(own, fn, arg, cfg, enclosing_stmt(c))
+                if src:
+                    out.setdefault(h, {}).setdefault(pname, f"{own.cls.name}.{name} passes {src}")
+    return out
+
+
 def close_sites(own: Owner) -> list[dict]:
     """Every close of a value that may be the shared connection, with its verdict."""
     out = []
+    taints = _helper_taint(own)
     for name, fn in own.methods.items():
         cfg = None
+        taint = taints.get(name, {})
         cands: list[tuple[ast.AST, ast.AST, str]] = []  # (site node, receiver expr, how)
         for n in walk_shallow(fn):
             if isinstance(n, ast.Call) and isinstance(n.func, ast.Attribute) and n.func.attr == "close" and not n.args:
@@ -295,7 +324,7 @@ def close_sites(own: Owner) -> list[dict]:
         for site, recv, how in cands:
             cfg = cfg or CFG(fn)
             st = enclosing_stmt(site)
-            src = _protected_source(own, fn, recv, cfg, st)
+            src = _protected_source(own, fn, recv, cfg, st, taint=taint)
             if src is None:
                 continue
             facts: set = set()
@@ -355,9 +384,9 @@ def run(chk) -> None:
     fsites = close_sites(fo)
     bad = [d for d in fsites if not d["ok"]]
     good = [d for d in fsites if d["ok"]]
-    chk.floor("C21.R1", "planted unguarded closes reported in fixtures/c21/borrowed_close.py", len(bad), 2)
-    chk.floor("C21.R1", "planted guarded closes accepted in fixtures/c21/borrowed_close.py", len(good), 2)
-    if {d["fn"].name for d in bad} != {"load", "save"} or {d["fn"].name for d in good} != {"load_guarded", "load_identity"}:
+    chk.floor("C21.R1", "planted unguarded closes reported in fixtures/c21/borrowed_close.py", len(bad), 3)
+    chk.floor("C21.R1", "planted guarded closes accepted in fixtures/c21/borrowed_close.py", len(good), 3)
+    if {d["fn"].name for d in bad} != {"load", "save", "_drop"} or {d["fn"].name for d in good} != {"load_guarded", "load_identity", "_release"}:
         raise AnchorError(f"C21.R1: fixture verdicts changed: reported {[d['fn'].name for d in bad]}, accepted {[d['fn'].name for d in good]}")
 
     # ---------------------------------------------------------------- R2
